@@ -168,6 +168,21 @@ CHECKS = {
              "small when a rule discards a value; recorded original instructions are checked by C14",
         technique="explicit-state search (uniform-cost BFS with exact state hashing) over a reference transition "
                   "system, witnesses replayed on the specification emitted by the implementation"),
+    "C06": dict(
+        level="model_checking", engine="E3+E5", ref="DESIGN.md section 4 C06",
+        text="for specifications of a prefix tree over a 10-symbol alphabet (plus blocks with every kind of dependency "
+             "edge) with small bounds x encoder option sets (deviation bounded), the emitted .smt2 is checked statically "
+             "(every symbol declared once, used at its arity and sorts, logic consistent) and ALL projections of its "
+             "models onto the instruction variables are enumerated by a finite-domain search over the text; every "
+             "projected model is decoded through BlockOptimizer's own reader (OMS syntax, and z3 syntax on a slice) and "
+             "executed on the symbolic stack machine within the declared bounds",
+        note="the enumerator (mc/smt_enum.py) explores the encoding as a transition system with unit propagation and "
+             "branches on anything left undetermined; cross-validated against z3 on dumped instances by "
+             "tools/z3_cross.py (28/28 agree); model and implementation are bound by construction: the enumerator "
+             "reads the emitted text and every model goes back through the implementation's reader; known findings: "
+             "-push-basic with uninterpreted sorts, max_sk_sz = 0 instances",
+        technique="exhaustive enumeration of the (projected) model set of the emitted transition-system encoding, every "
+                  "model replayed through the implementation"),
 }
 
 NOT_YET = "check not built yet in this session (planned in DESIGN.md section 4); nothing is claimed for it"
